@@ -84,6 +84,21 @@ func (p *poolWriter) emit(e *PEvent) {
 
 func (p *poolWriter) close() { p.w.Flush(); p.f.Close() }
 
+// poolGuard runs one driver phase. Every library call a pool driver makes is one the specification allows, so a
+// panic of the library that escapes the phase is an observation (a "Use" event of kind Crash with res=panic, which
+// PoolTrace rejects), not a crash of the recorder; the phase ends there.
+func poolGuard(pw *poolWriter, f func()) {
+	defer func() {
+		if r := recover(); r != nil {
+			if hb, ok := r.(harnessBug); ok {
+				panic("harness bug: " + string(hb))
+			}
+			pw.emit(&PEvent{Op: "Use", G: 1, Kind: "Crash", Res: "panic", Allocs: -1})
+		}
+	}()
+	f()
+}
+
 // ---- sequential histories (C10) ---------------------------------------------------------------
 
 type heldBuf struct {
@@ -596,9 +611,11 @@ func runPoolProfile(profile string, thorough bool, seed int64, out string) (*Sta
 				for rep := 0; rep < n; rep++ {
 					k := 1 + rng.Intn(4)
 					l := []int{0, rng.Intn(k + 1), k}[rep%3]
-					g, r := PoolSequential(pw, rng, ty, ch, l, k, steps, 1+rep%3, false)
-					st.Extra["gets"] += g
-					st.Extra["reused_gets"] += r
+					poolGuard(pw, func() {
+						g, r := PoolSequential(pw, rng, ty, ch, l, k, steps, 1+rep%3, false)
+						st.Extra["gets"] += g
+						st.Extra["reused_gets"] += r
+					})
 				}
 			}
 		}
@@ -606,13 +623,21 @@ func runPoolProfile(profile string, thorough bool, seed int64, out string) (*Sta
 		EnableMeasure()
 		debug.SetGCPercent(-1)
 		for i, ty := range BuiltinTypes {
-			PoolCycles(pw, ty, 1+i%4, i%3, 2+i%5, 40)
+			poolGuard(pw, func() { PoolCycles(pw, ty, 1+i%4, i%3, 2+i%5, 40) })
 			st.Extra["cycles"] += 40
 		}
 		// larger pools (total capacity >= 256, up to thousands of samples)
 		for i, sh := range [][3]int{{1, 0, 256}, {2, 16, 512}, {3, 0, 1000}, {1, 255, 255}, {8, 0, 400}} {
-			PoolCycles(pw, BuiltinTypes[(i*3)%13], sh[0], sh[1], sh[2], 10)
+			poolGuard(pw, func() { PoolCycles(pw, BuiltinTypes[(i*3)%13], sh[0], sh[1], sh[2], 10) })
 			st.Extra["cycles"] += 10
+		}
+		// buffers of 64 KiB .. 1 MiB (a pool that declines to keep big buffers allocates on every Get)
+		for _, sh := range []struct {
+			ty       string
+			ch, l, k int
+		}{{"int64", 1, 0, 1<<13 + 1}, {"float32", 2, 0, 1 << 14}, {"uint64", 2, 8, 1 << 15}, {"int8", 1, 0, 1 << 20}} {
+			poolGuard(pw, func() { PoolCycles(pw, sh.ty, sh.ch, sh.l, sh.k, 4) })
+			st.Extra["cycles"] += 4
 		}
 	case "poolscript":
 		n, g, r, err := PoolScripts(pw, PoolScriptFile, BuiltinTypes[int(seed)%13], PoolScriptShape[0], PoolScriptShape[1], PoolScriptShape[2])
@@ -622,11 +647,11 @@ func runPoolProfile(profile string, thorough bool, seed int64, out string) (*Sta
 		st.Extra["scripts"], st.Extra["gets"], st.Extra["reused_gets"] = n, g, r
 	case "poolzero":
 		for _, ty := range typesFor(false) {
-			st.Extra["zero_pool_cycles"] += PoolZero(pw, rng, ty)
+			poolGuard(pw, func() { st.Extra["zero_pool_cycles"] += PoolZero(pw, rng, ty) })
 		}
 	case "poolforeign":
 		for _, ty := range BuiltinTypes {
-			st.Extra["foreign_puts"] += PoolForeign(pw, rng, ty)
+			poolGuard(pw, func() { st.Extra["foreign_puts"] += PoolForeign(pw, rng, ty) })
 		}
 	case "poolconc":
 		type cfg struct{ G, M, P int }
@@ -705,93 +730,95 @@ func PoolScripts(pw *poolWriter, path, ty string, ch, l, k int) (scripts, gets, 
 		var held []heldBuf
 		stamp := int64(0)
 		next := func() int64 { stamp = stamp%100 + 1; return stamp }
-		for _, g := range ops {
-			a := g.A
-			if g.K != "Get" && (len(a) == 0 || a[0] < 1 || a[0] > len(held)) {
-				break
-			}
-			switch g.K {
-			case "Get":
-				v := pool.Get(scripts%2 == 0)
-				keep = append(keep, v)
-				id, seen := ids[v.Raw()]
-				if !seen {
-					id = len(ids) + 1
-					ids[v.Raw()] = id
+		poolGuard(pw, func() {
+			for _, g := range ops {
+				a := g.A
+				if g.K != "Get" && (len(a) == 0 || a[0] < 1 || a[0] > len(held)) {
+					break
 				}
-				gets++
-				e := &PEvent{Op: "Get", G: 1, ID: id, Res: "ok", View: obsOf(v), Allocs: -1}
-				if seen {
-					e.Reused = 1
-					reuses++
-				}
-				pw.emit(e)
-				held = append(held, heldBuf{v, id})
-			case "Put":
-				h := held[a[0]-1]
-				res := run(func() { pool.Put(h.v, scripts%2 == 1) })
-				pw.emit(&PEvent{Op: "Put", G: 1, ID: h.id, Res: res, Allocs: -1})
-				held = append(held[:a[0]-1], held[a[0]:]...)
-			default:
-				h := &held[a[0]-1]
-				v := h.v
-				e := &PEvent{Op: "Use", G: 1, ID: h.id, Res: "ok", Kind: g.K, Allocs: -1}
 				switch g.K {
-				case "AppendSample":
-					x := next()
-					v.AppendSample(x)
-					e.A = []int64{x}
-				case "SetSample":
-					if a[1] >= v.Len() {
-						continue
+				case "Get":
+					v := pool.Get(scripts%2 == 0)
+					keep = append(keep, v)
+					id, seen := ids[v.Raw()]
+					if !seen {
+						id = len(ids) + 1
+						ids[v.Raw()] = id
 					}
-					x := next()
-					v.SetSample(a[1], x)
-					e.A = []int64{int64(a[1]), x}
-				case "Write":
-					in := make([]int64, a[1])
-					for i := range in {
-						in[i] = next()
+					gets++
+					e := &PEvent{Op: "Get", G: 1, ID: id, Res: "ok", View: obsOf(v), Allocs: -1}
+					if seen {
+						e.Reused = 1
+						reuses++
 					}
-					v.Write(KindOf(ty), in)
-					e.A = in
-				case "Append":
-					if ch == 0 || v.Len()%ch != 0 || v.Len()+ch*a[1] > v.Cap() {
-						continue
-					}
-					src := NewView(ty, allocator(ch, a[1], a[1]))
-					in := make([]int64, ch*a[1])
-					for i := range in {
-						in[i] = next()
-					}
-					src.Write(KindOf(ty), in)
-					v.Append(src)
-					e.A = in
-				case "Slice0", "Fill":
-					fr := k
-					if g.K == "Slice0" {
-						fr = a[1]
-					}
-					nv := v.Slice(0, fr)
-					keep = append(keep, nv)
-					ids[nv.Raw()] = h.id
-					h.v, v = nv, nv
-					e.Kind, e.A = "Slice0", []int64{int64(fr)}
-					if g.K == "Fill" {
-						e.View = obsOf(v)
-						pw.emit(e)
-						in := make([]int64, v.Len())
+					pw.emit(e)
+					held = append(held, heldBuf{v, id})
+				case "Put":
+					h := held[a[0]-1]
+					res := run(func() { pool.Put(h.v, scripts%2 == 1) })
+					pw.emit(&PEvent{Op: "Put", G: 1, ID: h.id, Res: res, Allocs: -1})
+					held = append(held[:a[0]-1], held[a[0]:]...)
+				default:
+					h := &held[a[0]-1]
+					v := h.v
+					e := &PEvent{Op: "Use", G: 1, ID: h.id, Res: "ok", Kind: g.K, Allocs: -1}
+					switch g.K {
+					case "AppendSample":
+						x := next()
+						v.AppendSample(x)
+						e.A = []int64{x}
+					case "SetSample":
+						if a[1] >= v.Len() {
+							continue
+						}
+						x := next()
+						v.SetSample(a[1], x)
+						e.A = []int64{int64(a[1]), x}
+					case "Write":
+						in := make([]int64, a[1])
 						for i := range in {
 							in[i] = next()
 						}
 						v.Write(KindOf(ty), in)
-						e = &PEvent{Op: "Use", G: 1, ID: h.id, Res: "ok", Kind: "Write", A: in, Allocs: -1}
+						e.A = in
+					case "Append":
+						if ch == 0 || v.Len()%ch != 0 || v.Len()+ch*a[1] > v.Cap() {
+							continue
+						}
+						src := NewView(ty, allocator(ch, a[1], a[1]))
+						in := make([]int64, ch*a[1])
+						for i := range in {
+							in[i] = next()
+						}
+						src.Write(KindOf(ty), in)
+						v.Append(src)
+						e.A = in
+					case "Slice0", "Fill":
+						fr := k
+						if g.K == "Slice0" {
+							fr = a[1]
+						}
+						nv := v.Slice(0, fr)
+						keep = append(keep, nv)
+						ids[nv.Raw()] = h.id
+						h.v, v = nv, nv
+						e.Kind, e.A = "Slice0", []int64{int64(fr)}
+						if g.K == "Fill" {
+							e.View = obsOf(v)
+							pw.emit(e)
+							in := make([]int64, v.Len())
+							for i := range in {
+								in[i] = next()
+							}
+							v.Write(KindOf(ty), in)
+							e = &PEvent{Op: "Use", G: 1, ID: h.id, Res: "ok", Kind: "Write", A: in, Allocs: -1}
+						}
 					}
+					e.View = obsOf(v)
+					pw.emit(e)
 				}
-				e.View = obsOf(v)
-				pw.emit(e)
 			}
-		}
+		})
 	}
 	return scripts, gets, reuses, sc.Err()
 }
